@@ -50,7 +50,7 @@ def escape(E, st, why, nm):
         return []
     u = st.fork()
     u.unwinding = True
-    u.log('panic', why, nm)
+    u.log('panic', why, nm, E.panic_just(u) if why != 'user' else ())
     E.stats['escapes'] += 1
     return [('unwind', u, None)]
 
@@ -1990,7 +1990,7 @@ def m_expect(E, st, fid, t, args, dest_ty):
         if c is None:
             if not s.unwinding:
                 s.unwinding = True
-                s.log('panic', 'core', 'expect on None')
+                s.log('panic', 'core', 'expect on None', E.panic_just(s))
                 E.stats['escapes'] += 1
                 out.append(('unwind', s, None))
         else:
